@@ -420,13 +420,23 @@ func (v *xmlValue) UnmarshalXML(d *ixml.Decoder, start ixml.StartElement) error 
 	// buffer. This forces the encoder to redeclare any used namespaces.
 	var b bytes.Buffer
 	e := ixml.NewEncoder(&b)
+	// The value ends at the end element that closes start, not at the first
+	// end element that carries the same name: count the nesting depth.
+	depth := 0
+loop:
 	for {
 		t, err := next(d)
 		if err != nil {
 			return err
 		}
-		if e, ok := t.(ixml.EndElement); ok && e.Name == start.Name {
-			break
+		switch t.(type) {
+		case ixml.StartElement:
+			depth++
+		case ixml.EndElement:
+			if depth == 0 {
+				break loop
+			}
+			depth--
 		}
 		if err = e.EncodeToken(t); err != nil {
 			return err
